@@ -64,8 +64,8 @@ def gen_model(rng) -> dict:  # noqa: ANN001
     if rng.random() < 0.5:
         comps.append({"kind": "surrogate", "name": "sur", "fn": L(fl.s2_2), "args": ["x0", "k1"], "outputs": ["sflux", "svar"], "stoich": {"sflux": {"x1": 1.0, "x0": {"fn": L(fl.neg_sq1), "args": ["c1"]}}}})
     if rng.random() < 0.4:
-        # coefficients that are exactly zero (numeric, and computed as k1 - k1): such a flux is neither producer nor consumer
-        comps.append({"kind": "reaction", "name": "vz", "fn": L(fl.lin_ma), "args": ["k2", "x0"], "stoich": {"x0": -1, "x1": 0, "x2": {"fn": L(fl.sub2), "args": ["k1", "k1"]}}})
+        # coefficients that are exactly zero (numeric, and computed as k1 - k1 by a function): such a flux is neither producer nor consumer
+        comps.append({"kind": "reaction", "name": "vz", "fn": L(fl.lin_ma), "args": ["k2", "x0"], "stoich": {"x0": -1, "x1": 0, "x2": {"fn": L(fl.zero1), "args": ["k1"]}}})
     if rng.random() < 0.3:
         comps.append({"kind": "parameter", "name": "kq", "ia": {"fn": L(fl.add2), "args": ["k1", "x0"]}})
         comps.append({"kind": "derived", "name": "dq", "fn": L(fl.mul2), "args": ["kq", "x2"]})
